@@ -621,6 +621,25 @@ class Interp:
             else:
                 names = [e.id for e in tg.elts]
                 v = list(val)[names.index(name)]
+            if isinstance(v, (dict, list, set)):
+                # module-level statements that extend the container after its definition
+                # (e.g. `if AF_INET6 is not None: conn_tmap.update({...})`)
+                cache[key] = v
+                after = False
+                for st2 in mod.tree.body:
+                    if st2 is st:
+                        after = True
+                        continue
+                    if not after:
+                        continue
+                    txt = None
+                    if isinstance(st2, (ast.If, ast.Expr)):
+                        txt = ast.unparse(st2)
+                    if txt and any(f"{name}.{m}(" in txt for m in ("update", "append", "extend", "add")):
+                        try:
+                            self.exec(st2, Frame(RepoFunc(mod, "<module>", None), {name: v}))
+                        except (PyRaise, Unsupported):
+                            pass
         cache[key] = v
         return v
 
